@@ -190,7 +190,12 @@ class State(Sized):
 
         # Concatenate the rest of the variables
         for var in state_vars:
-            self.variables[var] = np.concatenate((self.variables[var], values[var]))
+            value = values[var]
+            # Flags given as 0/1 (a column of a release file) stay boolean,
+            # the tracker uses them as masks
+            if np.dtype(self.dtypes[var]) == np.dtype(bool):
+                value = np.asarray(value, dtype=bool)
+            self.variables[var] = np.concatenate((self.variables[var], value))
 
         logger.debug("Total number of particles = %d", len(self))
 
